@@ -516,6 +516,9 @@ def verify_load(chk, c, dline, fline):
         loadable = [(pp or obj['type'], kk) for pp, kk in F['formats'] if kk in ('ri', 'ma', 'db') or (pp == 'zin' or kk in ('prc', 'prl', 'src', 'srl'))]
         if not loadable:
             chk.count('npd_only_scalar_blocks')
+            if d is None:
+                # "every format combination the saver accepts is one the loader accepts": this one is not (recorded finding, see DESIGN §6)
+                return 'scalar-only', 'an NPD format list made only of IL / RL / VSWR is accepted by vnadata_cksave / vnadata_save and the file is refused by vnadata_load: %s' % lline[:80]
             return None
     if d is None:
         fr = F['freqs']
